@@ -182,7 +182,9 @@ def Sys.step (s : Sys) (c : Nat) : Sys × Option Ev :=
       | none => ⟨.del, .cobj b.pool id, .notfound, none⟩
     let s1 := { s with store := s.store.del (.cobj b.pool id), failed := (b.pool, id) :: s.failed }
     if err = .constraint then
-      if b.retries + 1 < maxCommitRetries then
+      -- `if rmerr != nil { return ksuid.Nil, rmerr }`: the object is gone (its pool was removed)
+      if (s.store (.cobj b.pool id)).isNone then (s1.setClient c { x with proc := none, res := some .io }, some ev)
+      else if b.retries + 1 < maxCommitRetries then
         (s1.setClient c { x with proc := some (.bc { b with retries := b.retries + 1 } (.lookup .rdHead)) }, some ev)
       else (s1.setClient c { x with proc := none, res := some .commitFailed }, some ev)
     else (s1.setClient c { x with proc := none, res := some err }, some ev)
